@@ -32,7 +32,7 @@ func utf8Layouts(maxChars int, maxBytes int) []string {
 
 func init() {
 	Register(&Check{
-		ID: "C14", SelfTest: true, Title: "the parser is total (conversion and diagnostic kernels)", PanicViolates: true,
+		ID: "C14", SelfTest: true, Z3TimeoutMs: 2000, Title: "the parser is total (conversion and diagnostic kernels)", PanicViolates: true,
 		Files: parserFiles, LoadPkgs: []string{"internal/parser"}, InitPkgs: []string{"internal/parser"},
 		Cases: func(tier string) []Case {
 			var cases []Case
